@@ -62,6 +62,10 @@ def run(ck: vlib.Check):
             if got is None:
                 continue
             n_loaded[reg] += 1
+            if got.get("dispatch_bad"):
+                ck.violation(f"importing {m} first: registry {reg} holds ids its own dispatch functions do not serve: "
+                             f"{got['dispatch_bad'][:3]}",
+                             {"kind": "dispatch", "module": m, "registry": reg, "bad": got["dispatch_bad"]}, True)
             if got["keys"] != sorted(expected[reg]):
                 missing = sorted(set(expected[reg]) - set(got["keys"]))
                 extra = sorted(set(got["keys"]) - set(expected[reg]))
